@@ -59,7 +59,7 @@ Leaves == {
   E(NumL("5"), <<Num("5.")>>, FALSE, TRUE),
   E(NumL("2"), <<Num("2.0")>>, FALSE, TRUE),
   E(NumL("-1.5"), <<P("-"), NumT("1.5")>>, FALSE, TRUE),
-  E(NumL("123456789012345680000"), <<Num("123456789012345678901.0")>>, FALSE, TRUE),
+  E(NumL("1.2345678901234568e+20"), <<Num("123456789012345678901.0")>>, FALSE, TRUE),
   E(StrL("x"), <<Str("x")>>, FALSE, TRUE),
   E(StrL(""), <<Str("")>>, FALSE, TRUE),
   E(StrL("it's \"q\" \\ \n end"), <<Str("it's \"q\" \\ \n end")>>, FALSE, TRUE),
